@@ -379,9 +379,11 @@ func checkC14(c caseC14) (sig, msg string) {
 			if !ok || int(first>>4) != int(target.snap.Type) || target.snap.Type == model.CONNECT {
 				continue // CONNECT has its own operation (the will it handed out)
 			}
-			if pan := guard.Call(func() { _ = target.p.UnmarshalBinary(append([]byte(nil), body...)) }); pan != nil {
+			reusedBuf := append([]byte(nil), body...)
+			if pan := guard.Call(func() { _ = target.p.UnmarshalBinary(reusedBuf) }); pan != nil {
 				return "panic", fmt.Sprintf("step %d: decoding %s into a packet that already holds one panicked: %v", step, hx(op.Frame), pan.Value)
 			}
+			target.retained = reusedBuf // the caller's buffer: a later scribble overwrites it
 			guard.Call(func() { target.snap = api.Observe(target.p) })
 			target.frame, target.model = nil, nil
 			except = ti
